@@ -14,6 +14,7 @@ import (
 
 	"verifharness/internal/asm"
 	"verifharness/internal/c06"
+	"verifharness/internal/c29"
 	"verifharness/internal/hx"
 )
 
@@ -70,6 +71,14 @@ func init() {
 			json.NewEncoder(os.Stdout).Encode(map[string]any{"fp": fp, "entities": names, "events": len(s.Trace.Hashes),
 				"done": s.Done()})
 			s.Close()
+		case "net":
+			var in c29.Input
+			json.Unmarshal(raw, &in)
+			n := c29.BuildNet(in)
+			n.TraceEvents()
+			n.Run()
+			fp := append(n.EventTrace(), n.Fingerprint()...)
+			json.NewEncoder(os.Stdout).Encode(map[string]any{"fp": fp, "events": len(n.EventTrace()) / 3, "done": true})
 		}
 		os.Exit(0)
 	}
@@ -103,6 +112,10 @@ type scriptIn struct {
 type libIn struct {
 	Kind string      `json:"kind"`
 	Cfg  *asm.Config `json:"cfg"`
+}
+type netIn struct {
+	Kind string    `json:"kind"`
+	Net  c29.Input `json:"net"`
 }
 type recIn struct {
 	Kind   string   `json:"kind"`
@@ -231,6 +244,30 @@ func run(raw json.RawMessage) (hx.Case, error) {
 		c.Nontrivial = true
 		c.Tags = []string{"lib:" + in.Cfg.Kind}
 		return c, nil
+	case "net":
+		var in netIn
+		if err := hx.UJ(raw, &in); err != nil {
+			return hx.Case{}, err
+		}
+		var fps []string
+		obs := map[string]any{}
+		events := 0
+		for _, gp := range procs {
+			var o struct {
+				FP     []uint64 `json:"fp"`
+				Events int      `json:"events"`
+			}
+			if err := json.Unmarshal(subRun("net", in.Net, gp), &o); err != nil {
+				return hx.Case{}, err
+			}
+			fps = append(fps, hx.LN(o.FP))
+			events = o.Events
+			obs[fmt.Sprintf("GOMAXPROCS=%d", gp)] = map[string]any{"events": o.Events, "fp_len": len(o.FP)}
+		}
+		c := hx.Case{Obs: obs, Coq: hx.App("ProcLib", hx.L(fps))}
+		c.Nontrivial = events >= 10
+		c.Tags = []string{"net:" + in.Net.Topo}
+		return c, nil
 	case "recorder":
 		var in recIn
 		if err := hx.UJ(raw, &in); err != nil {
@@ -284,6 +321,15 @@ func gen(r *hx.Rand, tier string) []json.RawMessage {
 	for i := 0; i < nLib; i++ {
 		out = append(out, hx.J(libIn{Kind: "lib", Cfg: asm.GenConfig(r, asm.Kinds[i%len(asm.Kinds)], nops)}))
 	}
+	// real networks: one-switch contention, then every connector family
+	out = append(out, hx.J(netIn{Kind: "net", Net: c29.ContendedNet(r, 3, 2)}))
+	nNet := 5
+	if tier == "thorough" {
+		nNet = 50
+	}
+	for i := 0; i < nNet; i++ {
+		out = append(out, hx.J(netIn{Kind: "net", Net: c29.GenNet(r, i)}))
+	}
 	return out
 }
 
@@ -293,7 +339,7 @@ func init() {
 		Imports: "From Akita Require Import Lib.Base Lib.AbsSim C06.Model C06.Exec C03.Exec.",
 		Rule: "each scripted simulation and each library assembly (ideal, wt, wb, wt+wb, banked, vm stack, dram, wb+dram) is run in 3 FRESH " +
 			"PROCESSES (GOMAXPROCS 16, 1, 4); compared: the handled-event trace incl. generated IDs, every entity's final checkpoint payload, " +
-			"the driver's response log (scripts: also against the Coq model). Recorder cases feed the same entries to 8-12 fresh data recorders " +
+			"the driver's response log (scripts: also against the Coq model); real networks (switches + endpoints of every connector family with scripted devices) likewise: handled-event trace (time, handler, class) and every device-port hand-over/arrival with its time. Recorder cases feed the same entries to 8-12 fresh data recorders " +
 			"(table creation order rotated) and compare location IDs and rows. Non-trivial: script with >= 3 events; every library case; " +
 			"recorder with >= 2 tables and >= 2 distinct locations.",
 		Gen: gen, Run: run, Shrink: shrink,
@@ -314,6 +360,19 @@ func shrink(raw json.RawMessage) []json.RawMessage {
 		}
 		for _, c := range asm.ShrinkConfigs(in.Cfg) {
 			out = append(out, hx.J(libIn{Kind: "lib", Cfg: c}))
+		}
+	case "net": // drop messages from the end
+		var in netIn
+		if hx.UJ(raw, &in) != nil {
+			return nil
+		}
+		if len(in.Net.Msgs) > 2 {
+			c := in
+			c.Net.Msgs = append([]c29.Msg{}, in.Net.Msgs[:len(in.Net.Msgs)/2]...)
+			out = append(out, hx.J(c))
+			c2 := in
+			c2.Net.Msgs = append([]c29.Msg{}, in.Net.Msgs[:len(in.Net.Msgs)-1]...)
+			out = append(out, hx.J(c2))
 		}
 	case "recorder":
 		var in recIn
